@@ -78,6 +78,7 @@ def step (p : Params) (c : Cache) (op : Op) (o : Oracle) : Res :=
   | .debugFmt => { cache := c, out := .items .iter (c.entries.map fun e => some (pairOf e)), evs := [] }
   | .cloneProbe base =>
     let r := clone c base
-    { cache := c, out := .cloned, evs := r.2.1 ++ dropCache r.1, status := r.2.2 }
+    { cache := c, out := .cloned, evs := r.2.1 ++ dropCache r.1, status := r.2.2,
+      rebuilt := some c.entries.length }
 
 end LruMem
